@@ -169,6 +169,7 @@ type HarnessRun struct {
 	AllocCuts    int
 	Sliced       int
 	CacheHits    int
+	budgetHit    bool
 }
 
 func newHarnessRun(name string) *HarnessRun {
